@@ -20,6 +20,7 @@ func init() {
 	register(&Scenario{Prop: "C11", Name: "gate-conc", Run: func(rc *RunCtx) { runGateConc(rc) }})
 	register(&Scenario{Prop: "C17", Name: "gate-expiry", Run: func(rc *RunCtx) { runGateSeq(rc, "C17") }})
 	register(&Scenario{Prop: "C17", Name: "gate-expiry-conc", Run: runGateExpiryConc})
+	register(&Scenario{Prop: "C17", Name: "gate-flush-conc", Run: runGateFlushConc})
 	register(&Scenario{Prop: "C11", Name: "gate-enum", Run: func(rc *RunCtx) { runGateEnum(rc, "C11") }})
 	register(&Scenario{Prop: "C17", Name: "gate-enum", Run: func(rc *RunCtx) { runGateEnum(rc, "C17") }})
 }
@@ -176,6 +177,7 @@ func runGateSeqOps(rc *RunCtx, prop string, fixed []gateOp, fixedBroker bool) {
 	if hasBroker {
 		gf.Broker = &fakeSender{h}
 	}
+	curE := E // the expiration in force for groups opened now
 	desc := &gateDesc{Broker: hasBroker, Expiration: E.String()}
 	rc.Desc = desc
 	withFaults := tp.Choose(3, "faults") == 0 && fixed == nil
@@ -242,6 +244,11 @@ func runGateSeqOps(rc *RunCtx, prop string, fixed []gateOp, fixedBroker bool) {
 				op = gateOp{Kind: "flushall"}
 			default:
 				op = gateOp{Kind: "close"}
+			}
+			if !probe && fixed == nil && tp.Choose(10, "set-expiration") == 0 {
+				// the exported Expiration is changed on the live filter: groups opened
+				// from now on expire earlier / later than the ones already open
+				op = gateOp{Kind: "set-expiration", D: []int64{int64(E) / 10, int64(E) * 10, int64(E) / 3}[tp.Choose(3, "newexp")]}
 			}
 			if fixed != nil && !probe {
 				op = fixed[i]
@@ -325,6 +332,13 @@ func runGateSeqOps(rc *RunCtx, prop string, fixed []gateOp, fixedBroker bool) {
 				}
 			}
 			switch op.Kind {
+			case "set-expiration":
+				if op.D < 1 {
+					op.D = 1
+				}
+				curE = time.Duration(op.D)
+				gf.Expiration = curE
+				histStr = append(histStr, fmt.Sprintf("set-expiration(%v)", curE))
 			case "advance":
 				h.now = h.now.Add(time.Duration(op.D))
 				histStr = append(histStr, fmt.Sprintf("advance(%v)", time.Duration(op.D)))
@@ -352,9 +366,18 @@ func runGateSeqOps(rc *RunCtx, prop string, fixed []gateOp, fixedBroker bool) {
 				T := h.now
 				// 1. expired groups, oldest first
 				failedEarly := false
-				for len(groups) > 0 && T.After(groups[0].exp) {
-					g := groups[0]
+				// (expiry order can differ from arrival order when Expiration is changed
+				// between two openings: every group is looked at, in arrival order)
+				for gi := 0; gi < len(groups); {
+					g := groups[gi]
+					if !T.After(g.exp) {
+						gi++
+						continue
+					}
 					simrt.Probe("gate.expired-group")
+					if gi > 0 {
+						simrt.Probe("gate.expired-behind-live-group")
+					}
 					if prop == "C11" && (ci >= len(h.composeLog) || !seqsEqual(h.composeLog[ci], g.events)) {
 						// C11 does not demand that an expired group is emitted now (that
 						// is C17); if it was not, it simply stays gated
@@ -363,14 +386,16 @@ func runGateSeqOps(rc *RunCtx, prop string, fixed []gateOp, fixedBroker bool) {
 							// model cannot know which, so this run is not judged further
 							rc.Stat("gate.uncertain-stop", 1)
 							uncertain = true
+							break
 						}
-						break
+						gi++
+						continue
 					}
 					r := openViaBroker(g, !hasBroker)
 					if r == "" {
 						return
 					}
-					groups = groups[1:]
+					groups = append(groups[:gi:gi], groups[gi+1:]...)
 					if r == "failed" {
 						failedEarly = true
 						break
@@ -398,7 +423,7 @@ func runGateSeqOps(rc *RunCtx, prop string, fixed []gateOp, fixedBroker bool) {
 				// 2. the event joins its group
 				gi := find(op.ID)
 				if gi < 0 {
-					groups = append(groups, &mGroup{id: op.ID, exp: T.Add(E)})
+					groups = append(groups, &mGroup{id: op.ID, exp: T.Add(curE)})
 					gi = len(groups) - 1
 				}
 				groups[gi].events = append(groups[gi].events, seq)
@@ -781,6 +806,130 @@ func runGateExpiryConc(rc *RunCtx) {
 				rc.Failf("C17.expired-remains", "concurrent-open", "group #%d expired no later than +%v, yet after a successful Process call made at +%v it had not been emitted through the Broker (emitted so far: %v)", g.seq, g.expHi.Sub(sim.Epoch), c.tlo.Sub(sim.Epoch), c.emitted)
 				return
 			}
+		}
+	}
+}
+
+// ---- C17: FlushAll / Close racing with flush events and with each other ------------------
+//
+// N groups are open. One task calls FlushAll (or Close) while others process
+// flush events of some of those groups or call FlushAll themselves; the Sender
+// yields inside Send. Afterwards: a FlushAll that returned nil left nothing
+// gated (a flush probe per id finds only itself), and every original event was
+// handed to composition exactly once overall.
+
+func runGateFlushConc(rc *RunCtx) {
+	tp := rc.Tape
+	sim := rc.Sim
+	h := &gateHarness{composeFail: map[int]bool{}, composeGate: map[int]bool{}, sendFail: map[int]bool{}}
+	gf := &gated.Filter{Expiration: time.Hour, Broker: &fakeSender{h}}
+	nGroups := 2 + tp.Choose(4, "ngroups")
+	seq := 0
+	ctx := context.Background()
+	var ids []string
+	orig := map[int]string{}
+	ready := false
+	sim.Spawn("opener", func() {
+		for g := 0; g < nGroups; g++ {
+			id := fmt.Sprintf("g%d", g)
+			ids = append(ids, id)
+			k := 1 + tp.Choose(2, "nev")
+			for i := 0; i < k; i++ {
+				seq++
+				orig[seq] = id
+				gf.Process(ctx, &el.Event{Type: "t", Payload: &gPayload{ID: id, Seq: seq, h: h}})
+			}
+		}
+		ready = true
+	})
+	sim.Run(nil)
+	if !ready || sim.Stuck {
+		rc.Failf("C17.stuck", stuckClass(sim), "opening groups did not finish")
+		return
+	}
+	nActors := 2 + tp.Choose(2, "nactors")
+	flushAllOK := 0
+	var flushReturned [][]int // composites returned down the pipeline by flush events
+	for a := 0; a < nActors; a++ {
+		a := a
+		kind := tp.Choose(3, "actor") // 0 FlushAll, 1 Close, 2 flush events
+		if a == 0 {
+			kind = tp.Choose(2, "actor0")
+		}
+		var targets []string
+		if kind == 2 {
+			n := 1 + tp.Choose(nGroups, "ntargets")
+			for i := 0; i < n; i++ {
+				targets = append(targets, fmt.Sprintf("g%d", tp.Choose(nGroups, "target")))
+			}
+		}
+		sim.Spawn(fmt.Sprintf("actor%d", a), func() {
+			simrt.Yield("actor:start")
+			switch kind {
+			case 0:
+				if gf.FlushAll(ctx) == nil {
+					flushAllOK++
+				}
+			case 1:
+				if gf.Close(ctx) == nil {
+					flushAllOK++
+				}
+			default:
+				for _, id := range targets {
+					simrt.Yield("actor:flush-event")
+					seq++
+					out, err := gf.Process(ctx, &el.Event{Type: "t", Payload: &gPayload{ID: id, Flush: true, Seq: 50000 + seq, h: h}})
+					if err == nil && out != nil {
+						if cp, ok := out.Payload.(*compPayload); ok {
+							flushReturned = append(flushReturned, cp.Seqs)
+						}
+					}
+				}
+			}
+		})
+	}
+	sim.Run(nil)
+	rc.NonTrivial = true
+	rc.Desc = map[string]interface{}{"groups": nGroups, "actors": nActors}
+	if sim.Stuck {
+		if len(sim.Panics) == 0 {
+			rc.Failf("C17.stuck", stuckClass(sim), "concurrent FlushAll / flush events did not finish: %s", strings.Join(sim.StuckInfo, "; "))
+		}
+		return
+	}
+	if len(sim.Panics) > 0 {
+		return
+	}
+	// what is still gated? one flush probe per id
+	var leftovers []string
+	sim.Spawn("prober", func() {
+		for _, id := range ids {
+			seq++
+			mark := len(h.composeLog)
+			gf.Process(ctx, &el.Event{Type: "t", Payload: &gPayload{ID: id, Flush: true, Seq: 90000 + seq, h: h}})
+			for _, c := range h.composeLog[mark:] {
+				for _, x := range c {
+					if _, isOrig := orig[x]; isOrig {
+						leftovers = append(leftovers, fmt.Sprintf("%s#%d", id, x))
+					}
+				}
+			}
+		}
+	})
+	sim.Run(nil)
+	if flushAllOK > 0 && len(leftovers) > 0 {
+		rc.Failf("C17.lingering", "after-concurrent-flushall", "FlushAll / Close returned nil, yet these events were still gated afterwards: %v", leftovers)
+	}
+	count := map[int]int{}
+	for _, c := range h.composeLog {
+		for _, x := range c {
+			count[x]++
+		}
+	}
+	for x := range orig {
+		if count[x] > 1 {
+			rc.Failf("C17.emitted-twice", "", "event #%d of group %s was handed to composition %d times (compositions %v)", x, orig[x], count[x], h.composeLog)
+			break
 		}
 	}
 }
